@@ -126,12 +126,12 @@ def normalise(events):
         if loc in ("?", "sym32", "sym64"):
             continue           # the context of a then()-future: another instance of the same protocol
         n = dict(DEF, t=t, k=k, now=now)
-        if k in ("load", "xchg", "faa", "cas"):
+        if k in ("load", "xchg", "faa", "for", "cas"):
             n["loc"], n["mo"] = loc, e.get("mo", "")
         if loc == "futex":
             if k == "load":
                 n["v"] = fv(e["v"])
-            elif k in ("xchg", "faa"):
+            elif k in ("xchg", "faa", "for"):
                 n["v"], n["a"] = fv(e["v"]), fv(e["a"])
             elif k == "fwait":
                 n["loc"], n["a"], n["v"], n["ok"] = loc, fv(e["exp"]), fv(e["cur"]), e["res"] == "block"
@@ -166,7 +166,7 @@ def normalise(events):
             n["v"] = e.get("v", 0)
             a = e.get("a", 0)
             n["a"] = s64.get(a, a)
-        elif k in ("load", "store", "xchg", "faa", "cas", "fwait", "fret", "fwake"):
+        elif k in ("load", "store", "xchg", "faa", "for", "cas", "fwait", "fret", "fwake"):
             n["loc"] = loc
             n["v"] = e.get("v", 0)
         elif k == "clock":
